@@ -313,6 +313,7 @@ def classify(ctx, b, bi, t, idx_in_fn):
             base, rng = a0[2][0], a0[2][1]
             r = ctx.text_root(base)
             if r and (r[0] == 'arg' or r[0] == 'upvar'):
+                ctx.wiring.append({'fn': b['name'], 'line': t['l'], 'wrap': callee, 'base': base, 'range': rng})
                 return ('SUBSLICE', 'C02/C03', f'range {_short(rng)}', True, '')
             return ('SUBSLICE', None, '', False, 'sliced bytes are not the text of self')
         # straight-line builders: text(S) followed by pushed literals
